@@ -299,14 +299,17 @@ class NPShim:
         a = np.asarray(a)
         if a.dtype != object:
             return np.nan_to_num(a, copy=copy, nan=nan, posinf=posinf, neginf=neginf)
-        out = a.copy()
+        out = a.copy() if copy else a
+        if not copy and not a.flags.writeable:
+            raise ValueError('assignment destination is read-only')
         for idx in np.ndindex(*a.shape):
             x = a[idx]
             if isinstance(x, (float, np.floating)):
                 if math.isnan(x):
                     out[idx] = nan
                 elif math.isinf(x):
-                    raise NeedsConcrete('inf in nan_to_num')
+                    out[idx] = (np.finfo(float).max if posinf is None else posinf) if x > 0 else \
+                        (np.finfo(float).min if neginf is None else neginf)
         return out
 
     # ---- merged element-wise operations
